@@ -14,3 +14,9 @@ def run(ctx):
                 "several oneof groups (scalar, string, bytes, enum, message, Timestamp members); after every call the public observation "
                 "(which_one_of, AttributeError on other members, members in the encoding and in to_dict) is judged; non-trivial = >= 2 ops")
     hist.run_histories(ctx, ["TOne", "TOne", "TMix"], 1500 if quick else 30000, 14, "oneof")
+
+
+def redrive(ev):
+    if "ops" in ev.get("case", {}):
+        return hist.history_event((ev["case"]["ty"], ev["case"]["ops"], False))
+    return None
